@@ -1963,14 +1963,23 @@ func (fr *Frame) loopEnv(li *loopInfo, st *State, phiVals map[*ssa.Phi]Val, R st
 func (fr *Frame) bindLocals(vars map[string]Val, st *State, li *loopInfo) {
 	c := fr.c
 	bound := map[string]*ssa.BasicBlock{} // block of the debug reference a name is currently bound from
-	if li == nil && fr.curBlock != nil {
-		// outside loops: the most recent reference to the name in a block dominating the current one
+	at := fr.curBlock
+	if li != nil {
+		at = li.header // invariants speak about the state at the loop head
+	}
+	if at != nil {
+		// the most recent reference to (or merge of) the name in a block dominating the current one
 		for name, recs := range fr.refs {
 			if _, dup := vars[name]; dup {
 				continue
 			}
 			for i := len(recs) - 1; i >= 0; i-- {
-				if recs[i].blk == fr.curBlock || recs[i].blk.Dominates(fr.curBlock) {
+				if li != nil && recs[i].blk == at {
+					if _, isPhi := recs[i].v.(*ssa.Phi); !isPhi {
+						continue // a reference inside the header block follows the loop head
+					}
+				}
+				if recs[i].blk == at || recs[i].blk.Dominates(at) {
 					if v, ok := fr.vals[recs[i].v]; ok {
 						vars[name] = v
 					} else if k, isConst := recs[i].v.(*ssa.Const); isConst {
